@@ -15,9 +15,16 @@ def run(ctx):
     dsl.verify(ctx, repo, C.new_tree_registry(), "C14.full", [C.FA + ".FullyAdaptedKernel.get_proposal_distribution", C.FA + "._get_cached_full_proposal_dist"], C.h_proposal_cache,
                expect_covers=["proposal-cache"])
     dsl.verify(ctx, repo, C.new_tree_registry(), "C14", "phyclone.utils.dev.clear_proposal_dist_caches", C.h_clear, expect_covers=["clear"])
+    # frame obligation: arrays handed out by the convolution caches are never written (2-D array model of the C02 contracts)
+    from contracts import c02_recursion as R
+
+    dsl.verify(ctx, repo, R._generic(R.TU + "._sub_compute_S"), "C14.frame", R.TU + ".compute_log_S", R.h_compute_log_S, expect_covers=["S-empty", "S-nonempty"])
+    dsl.verify(ctx, repo, R._generic(R.TU + "._sub_compute_S"), "C14.frame", R.TU + "._sub_compute_S", R.h_sub_compute_S, expect_covers=["prefix-sum"])
+    dsl.verify(ctx, repo, dsl.Registry(), "C14.frame", R.TN + ".update_node_from_child_r_vals", R.h_update_node, expect_covers=["leaf", "inner"])
+    dsl.verify(ctx, repo, dsl.Registry(), "C14.frame", [R.TU + "._np_conv_dims", R.MA + ".fft_convolve_two_children"], R.h_conv, expect_covers=["direct", "fft"])
     ctx.trust(*C.new_tree_registry().assumed)
-    ctx.trust("frame obligation 'no function mutates an array it obtained from a cache' (compute_log_D, _sub_compute_S, update_node_from_child_r_vals): not expressible without the 2-D array "
-              "model; covered by the shadow run (growing children lists) only",
+    ctx.trust("frame obligation 'no function mutates an array it obtained from a cache': proved for compute_log_S / _sub_compute_S / update_node_from_child_r_vals / the two convolution "
+              "functions (inputs untouched, result is a new object); compute_log_D returns a cache entry unchanged by construction",
               "the key components parent_particle / data_point / kernel of the proposal caches are compared by their own __eq__/__hash__ (Particle: stored tree dictionary; DataPoint: name; "
               "kernel: identity) - their adequacy is covered by the shadow run only", "floating-point non-associativity of reordered children (tolerance 1e-8 in the shadow run)")
     ctx.extra["explanation"] = ("Deductive: the REAL decorator code of list_of_np_cache / two_np_arr_cache and the hashers is executed symbolically over array digests (lru_cache by its contract): "
